@@ -68,7 +68,7 @@ def stepTemplate (st : TmplSt) (toks : List String) : Option (TmplSt × String) 
       match createTemplate T defaultFuel ed ds with
       | .ok t => some ({ st with tmpl := some t, subsets := #[], invalid := false }, s!"ok {t.gabarit.length} {if t.hasDelayed then 1 else 0}")
       | .error .null => some ({ st with tmpl := none, subsets := #[] }, "fail")
-      | .error .fuel => some ({ st with tmpl := none, subsets := #[] }, "diverge")
+      | .error _ => some ({ st with tmpl := none, subsets := #[] }, "diverge")
     | _, _ => some (st, "bad-op")
   | ["tm.gabarit"] =>
     match st.tmpl with
@@ -80,6 +80,7 @@ def stepTemplate (st : TmplSt) (toks : List String) : Option (TmplSt × String) 
     | some t =>
       match createDatasubset T defaultFuel t with
       | .ok (s, err) => some ({ st with subsets := st.subsets.push s, invalid := st.invalid || err }, s!"{st.subsets.size}")
+      | .error .abort => some (st, "abort")
       | .error _ => some (st, "-1")
   | ["ss.list", p] =>
     match p.toNat? with
@@ -125,6 +126,7 @@ def stepTemplate (st : TmplSt) (toks : List String) : Option (TmplSt × String) 
       | some s =>
         match expandDatasubset T defaultFuel t s with
         | .ok (s', err) => some ({ st with subsets := st.subsets.set! p s', invalid := st.invalid || err }, s!"{s'.nodes.length}")
+        | .error .abort => some (st, "abort")
         | .error _ => some ({ st with subsets := st.subsets.set! p { nodes := [] } }, "-1")
       | none => some (st, "-1")
     | some _, none => some (st, "-1")
